@@ -7,7 +7,7 @@ for C in C01 C02 C03 C04 C05 C06 C07 C08 C09 C10 C11 C12 C13 C14 C15 C16 C17 C18
   R=$N; case $C in C13|C18) R=$((N/5));; C14) R=$((N/5));; C03|C20) R=$((N/2));; esac
   H=""; OK=true
   for W in 1 4 16 16; do
-    if [ $C = C14 ]; then VERIF_RUNS=$R VERIF_WORKERS=$W build/asan/c14 quick >/dev/null 2>&1; else VERIF_RUNS=$R VERIF_WORKERS=$W ./check $C quick >/dev/null 2>&1; fi
+    if [ $C = C14 ]; then ./check C14 --show 0 >/dev/null 2>&1; VERIF_RUNS=$R VERIF_WORKERS=$W build/asan/c14 quick >/dev/null 2>&1; else VERIF_RUNS=$R VERIF_WORKERS=$W ./check $C quick >/dev/null 2>&1; fi
     h=$(grep -o '"batch_log_hash": "[0-9]*"' evidence/$C.json | grep -o '[0-9][0-9]*'); m=$(grep -o '"determinism_mismatches": [0-9]*' evidence/$C.json | grep -o '[0-9]*$')
     H="$H $W:$h"; [ -n "$PREV" ] && [ "$PREV" != "$h" ] && OK=false; [ "$m" != "0" ] && OK=false; PREV=$h
   done
